@@ -5,7 +5,7 @@
     (Wire area); C14 judges it on the implementation's output with two independent RFC 1071
     implementations (harness, [Scmp.Spec.packet_checksum_ok]). *)
 From Coq Require Import Lia ZifyBool ZifyNat ZifyN.
-From Sci Require Import Scmp.Model Scmp.Spec Scmp.Proofs.
+From Sci Require Import Scmp.Model Scmp.Spec Scmp.Proofs Scmp.Bytes.
 Local Open Scope N_scope.
 
 (** ** Every SCMP error packet is at most 1232 bytes long.
@@ -61,6 +61,19 @@ Proof.
 Qed.
 Print Assumptions quote_is_prefix.
 
+(** ** The whole encoded error message, byte for byte: the kind's fixed part -- type, code,
+    (checksum, here 0), reserved / MTU / pointer / ISD-AS and interface ids as big-endian
+    fields of the widths of the SCMP specification -- followed by the quote. *)
+Theorem error_message_bytes :
+  forall (m : emsg) (h hdr : N),
+    err_hdr (e_ty m) = Some hdr ->
+    encode_err m h
+    = Ok (err_fixed m ++ firstn (N.to_nat (N.min (blen (e_off m)) (1232 - h - hdr))) (e_off m)).
+Proof.
+  intros m h hdr Hh. rewrite (encode_err_closed m h hdr Hh), from_off_included. reflexivity.
+Qed.
+Print Assumptions error_message_bytes.
+
 (** ** Echo: the reply carries the request's identifier, sequence number and data, is addressed
     back to the requester (source and destination swapped) over the reversed path. *)
 Theorem echo_reply_faithful :
@@ -74,11 +87,20 @@ Theorem echo_reply_faithful :
       src_scion_addr v = Ok (Some (rp_dst_ia r, rp_dst_host r)) /\
       dst_scion_addr v = Ok (Some (rp_src_ia r, rp_src_host r)) /\
       dp_reverse p = Some (rp_path r) /\
-      encode_echo_reply (rp_id r) (rp_seq r) (rp_data r) = Ok (rp_payload r).
+      (* the reply's SCMP message, byte for byte: type 129, code 0, (checksum), identifier,
+         sequence number, data *)
+      rp_payload r = [129; 0; 0; 0] ++ be_bytes 2 (rp_id r) ++ be_bytes 2 (rp_seq r) ++ rp_data r.
 Proof.
   intros v p r H. destruct (echo_handle_some v p r H) as (sv & ty & dr & H1 & H2 & H3 & H4 & H5 & H6 & H7 & H8 & H9 & H10 & H11).
   apply echo_answers_only_echo_request in H3. subst ty.
-  exists sv, dr. repeat (split; [assumption|]). assumption.
+  exists sv, dr. repeat (split; [assumption|]).
+  rewrite encode_echo_reply_closed in H11. inversion H11 as [E]. clear H11.
+  (* identifier and sequence number were read as 16-bit values *)
+  assert (T : forall x, rd sv ScmpEchoRequest_IDENTIFIER_RNG 16 = Ok x \/ rd sv ScmpEchoRequest_SEQUENCE_NUMBER_RNG 16 = Ok x -> trunc 16 x = x).
+  { intros x [Hx|Hx]; unfold rd in Hx;
+      destruct (negb _) in Hx; try discriminate; destruct (negb _) in Hx; try discriminate;
+      inversion Hx; unfold trunc; (rewrite N.mod_mod; [reflexivity|apply N.pow_nonzero; discriminate]). }
+  rewrite (T _ (or_introl H4)), (T _ (or_intror H5)). reflexivity.
 Qed.
 Print Assumptions echo_reply_faithful.
 
@@ -140,6 +162,38 @@ Proof.
 Qed.
 Print Assumptions no_reply_to_error_or_truncated_partial.
 
+(** ** No error loops: no component answers an SCMP error message.
+
+    SCMP message types below 128 are error messages (all of them, assigned or not).
+    (1) the error handler never returns a reply and the echo handler none for a type other
+        than 128 ([no_reply_to_error_or_truncated_partial]; in the receive loop every reply is
+        the echo handler's, see the loop theorem);
+    (2) pocketscion's simulator computes no reply target for an SCMP packet of type < 128
+        (after the repair of this round; before it: only for types 1, 2, 4, 5, 6);
+    (3) the SNAP gateway sends nothing for a parseable datagram that is an SCMP message of type
+        < 128 (after the repair of this round).
+    PARTIAL: a datagram the gateway cannot parse (MalformedPacket) is answered whatever it is. *)
+Theorem no_scmp_error_is_answered_partial :
+  (forall v p sv ty, as_scmp v = Ok (Some sv) -> scmp_type sv = Ok ty -> ty < 128 ->
+     echo_handle v p = Ok None) /\
+  (forall v p sv ty, is_scmp v = true -> as_scmp v = Ok (Some sv) -> scmp_type sv = Ok ty -> ty < 128 ->
+     sim_reply_target v p = Ok None) /\
+  (forall d v rest hv ty r,
+     try_from_slice KRaw d = Ok (v, rest) -> pkt_header v = Ok hv -> hv_next_header hv = Ok PROTO_SCMP ->
+     pkt_payload v = Ok (ty :: r) -> ty < 128 ->
+     gateway_suppresses false d = Ok true).
+Proof.
+  assert (E1 : SIM_ERROR_TYPE_BOUND = 128) by reflexivity.
+  assert (E2 : GW_ERROR_TYPE_BOUND = 128) by reflexivity.
+  assert (E3 : T_ECHO_REQUEST = 128) by reflexivity.
+  refine (conj _ (conj _ _)).
+  - intros v p sv ty H1 H2 H3. apply (echo_handle_other_type v p sv ty H1 H2). rewrite E3. lia.
+  - intros v p sv ty H0 H1 H2 H3. apply (sim_no_reply_to_errors v p sv ty H0 H1 H2). rewrite E1. exact H3.
+  - intros d v rest hv ty r H1 H2 H3 H4 H5.
+    apply (gateway_no_reply_to_errors d v rest hv ty r H1 H2 H3 H4). rewrite E2. exact H5.
+Qed.
+Print Assumptions no_scmp_error_is_answered_partial.
+
 (** ** The receive loop: received SCMP errors reach the receivers; datagram delivery is unaffected.
 
     For every stream of received packets on which no step panics, with or without the echo
@@ -149,8 +203,9 @@ Print Assumptions no_reply_to_error_or_truncated_partial.
         of the installed handlers;
     (2) the error callbacks are exactly the SCMP error messages the stream carried (one
         callback per parseable error packet, in arrival order);
-    (3) everything the socket sends back is an echo reply produced by the echo handler for an
-        SCMP packet of the stream -- by [reply_iff_echo_request], for an echo request. *)
+    (3) the packets the socket sends back are exactly the echo handler's answers to the SCMP
+        packets of the stream: one reply per answered packet, in arrival order, nothing else
+        -- by [reply_iff_echo_request], one per echo request and none for anything else. *)
 Theorem errors_reach_receivers_and_datagrams_unaffected :
   forall (with_echo : bool) (buflen : N) (pkts : list (bytes * dppath)),
     no_panic (recv_stream with_echo buflen pkts) ->
@@ -162,14 +217,16 @@ Theorem errors_reach_receivers_and_datagrams_unaffected :
                   if is_scmp (fst vp)
                   then match err_handle (fst vp) with Ok o => opt_list o | _ => [] end
                   else []) pkts /\
-    (forall r, In r (replies_of (recv_stream with_echo buflen pkts)) ->
-       with_echo = true /\
-       exists v p, In (v, p) pkts /\ is_scmp v = true /\ echo_handle v p = Ok (Some r)).
+    replies_of (recv_stream with_echo buflen pkts)
+    = flat_map (fun vp : bytes * dppath =>
+                  if with_echo && is_scmp (fst vp)
+                  then match echo_handle (fst vp) (snd vp) with Ok o => opt_list o | _ => [] end
+                  else []) pkts.
 Proof.
   intros we b pkts NP. refine (conj _ (conj _ _)).
   - intros we'. apply datagrams_unaffected. exact NP.
   - apply errors_reach_receivers. exact NP.
-  - intros r. apply replies_only_from_echo.
+  - apply replies_exact. exact NP.
 Qed.
 Print Assumptions errors_reach_receivers_and_datagrams_unaffected.
 
